@@ -138,8 +138,15 @@ def fold_init(repo, is_compressed=False, n_subsets=1, values=None, interp=None):
 
 def initial_state(repo, interp, cls='CoderState', is_compressed=False):
     """Register file of a fresh state: CoderState.__init__ folded (first non-raising path)."""
-    st = fold_init(repo, is_compressed, 1)[0]
+    it0 = WalkInterp(repo, 'Decoder')
+    st = fold_init(repo, is_compressed, 1, interp=it0)[0]
     fields = dict((k, v) for k, v in st.fields.items() if k in REGISTERS or k in ('idx_value', 'idx_subset', 'is_compressed', 'n_subsets'))
+    for r in REGISTERS:
+        if r not in fields:
+            # a register whose initial value is a class-level default (read through the instance, as the walk does)
+            v = it0.load_attr(st, r, None, None)
+            if not (isinstance(v, Top) and v.kind == 'attr:' + r):
+                fields[r] = v
     missing = [r for r in REGISTERS if r not in fields]
     if missing:
         raise AnalysisError('CoderState.__init__ no longer initialises register(s) %s' % ', '.join(missing))
